@@ -7,7 +7,9 @@ from .common import DEFAULT_NS, restore
 from .specs import make_store
 
 P = tscen.P
-PIDS = ("p", "q", "r")
+LONGQ = "q" * 9000
+LQ = tuple("q%d" % i + "x" * 3000 for i in range(1, 6))
+PIDS = ("p", "q", "r", LONGQ) + LQ
 FORMATS = (DEFAULT_NS, "f2")
 
 QMETA = ("store_meta", "q", None, "v0")
@@ -21,6 +23,9 @@ STATES = {
                      ("store", "q", "B", None), QMETA),
     "p=L,q=L": (("store", "p", "L", None), ("store", "q", "L", None)),
     "A-unreferenced": (("store_nopid", "A"), ("store", "q", "B", None), QMETA),
+    "p=A,longq=A": (("store", "p", "A", None), ("store", LONGQ, "A", None)),
+    "longq=A,p=A": (("store", LONGQ, "A", None), ("store", "p", "A", None)),
+    "p=A,5 long pids=A": (("store", LQ[0], "A", None), ("store", "p", "A", None)) + tuple(("store", x, "A", None) for x in LQ[1:]),
 }
 WARM = (("store", "p", "A", None), ("store", "q", "B", None), ("store", "r", "L", None),
         ("store_meta", "p", None, "v0"), ("store_meta", "q", None, "v0"),
@@ -45,6 +50,11 @@ CASES = [
     (("store_meta", "p", None, "v2"), "p=A+docs,q=B", "store metadata, overwrite (multi-buffer)"),
     (("delete_meta", "p", "f2"), "p=A+docs,q=B", "delete one metadata document"),
     (("delete_meta", "p", None), "p=A+docs,q=B", "delete all metadata documents"),
+]
+LONG_LIST_CASES = [
+    (("delete", "p"), "p=A,5 long pids=A", "delete shared reference, cid list rewritten with several write(2) calls"),
+    (("delete", "p"), "p=A,longq=A", "delete shared reference, bystander pid longer than one I/O buffer listed after it"),
+    (("delete", "p"), "longq=A,p=A", "delete shared reference, bystander pid longer than one I/O buffer listed before it"),
 ]
 THOROUGH_CASES = [
     (("store", "p", "B", None), "p=A,q=A", "rejected store (pid bound)"),
